@@ -13,6 +13,7 @@ from . import c18
 
 ID = 'C10'
 WORLD = 'gdb'
+LOG_LANES = (15,)      # one lane without the fake gdb module: the prompt loop of file mode reached through main.main
 LEVEL = 'exploration'
 RUNS = {'quick': 6400}
 BUDGET_S = {'thorough': 600}
@@ -50,8 +51,10 @@ def gdb_spelling(rng, text, meta):
 
 def generate(seed, tier, index):
     rng = random.Random('%d/gen' % seed)
-    if index % 5 == 4:
-        return generate_prompt(seed, rng)
+    import os
+    log_world = os.environ.get('VERIF_WORLD') == 'log'
+    if index % 5 == 4 or log_world:
+        return generate_prompt(seed, rng, log_world)
     nslots = rng.choice([1, 2, 2, 3])
     n = rng.randint(6, 60 if tier == 'quick' else 150)
     sides = [rng.choice(['client', 'server']) for _ in range(nslots)]
@@ -149,14 +152,17 @@ def c18_could_end(text):
     return (bool(first) and any(n.startswith(first.lower()) for n in risky)) or '\x1b' in text or not first
 
 
-def generate_prompt(seed, rng):
+def generate_prompt(seed, rng, log_world=False):
     script = []
     for _ in range(rng.randint(0, 8)):
         script.append(rng.choice(['help', 'list', 'filter wl_surface', 'breakpoint .commit', 'connection', 'xyz', '', 'l ~ 1', 'm a.b',
                                   'wl list', 'resum', 'qui', 'r e', 'resume x', 'quit now']))
     enders = [rng.choice(['resume', 'r', 'res', 'quit', 'q', 'wl resume', 'wlquit', 'w q', 'wlresume'])]
     tail = [rng.choice(['list', 'quit', 'resume', 'help']) for _ in range(rng.randint(0, 3))]
-    return {'prop': ID, 'seed': seed, 'config': {'kind': 'prompt', 'rounds': rng.randint(1, 2)}, 'intents': [],
+    # the prompt loop on its own, or reached the way a user reaches it: main.main in file mode, the log read to its end - or
+    # not there at all (I/O fault: open() fails with FileNotFoundError; the tool reports it and prompts all the same)
+    via = rng.choice(['component', 'main-file', 'main-file', 'main-file-missing']) if log_world else 'component'
+    return {'prop': ID, 'seed': seed, 'config': {'kind': 'prompt', 'rounds': rng.randint(1, 2), 'via': via}, 'intents': [],
             'script': script + enders + tail}
 
 
@@ -193,7 +199,19 @@ def execute_prompt(sc):
         want = len(script) + 1     # would keep prompting: the scripted user runs out
     exc = None
     calls = 0
-    for rnd in range(1):
+    via = sc['config'].get('via', 'component')
+    if via != 'component':
+        data = b'' if via == 'main-file-missing' else (
+            b'[1000.000]  -> wl_display@1.get_registry(new id wl_registry@2)\nhello\n[1000.500] wl_registry@2.global(1, "wl_shm", 1)\n')
+        res = rig.run_main(['main.py', '--no-color', '-l', '/sim/session.log'], data, [1 << 20], script=script, rec=rec,
+                           open_error='FileNotFoundError' if via == 'main-file-missing' else None)
+        if res.exception is not None and not isinstance(res.exception, rig.ScriptExhausted):
+            exc = res.traceback
+        calls = sum(1 for s, k, p in rec.events if k == 'prompt')
+        V.bump('prompt_sessions_through_main_' + ('missing_file' if via == 'main-file-missing' else 'file'))
+        if via == 'main-file-missing' and not any(k == 'err' and 'not found' in p for s, k, p in rec.events):
+            V.bump('probe_missing_file_not_reported')
+    for rnd in range(1 if via == 'component' else 0):
         cm = t['ConnectionManager']()
         ctl = t['Controller'](out, cm, t['matcher'].always, t['matcher'].never)
         user = rig.ScriptedUser(rec, script)
